@@ -9,6 +9,12 @@ CHECKS = {
    text="All strings up to the stated length over a 144-code-point alphabet (pairs/triples over a 14-character class-representative alphabet) are decided by z3 path by path for every name-deriving kernel: validity (non-empty identifier, not a keyword) and pairwise distinctness inside one namespace. Bounded model checking of the real code, not a proof: longer names and code points outside the alphabet are outside the claim.",
    note="Trusts z3 (QF_LIA), CPython's str/re behaviour tabulated per character from the running interpreter, and the symx instrumentation (validated every run: each explored path's witness is re-executed on the uninstrumented code and compared). Rendering and file I/O are stubbed; naming loops are the repo's.", ref="§2 C20"),
 }
+CHECKS["C06"] = dict(engine="symx", technique="symbolic execution (symx/z3) of the real HttpxTransport.request and of the match statement emitted by the real generator, status code one symbolic integer over 100..599",
+   text="For 8 operation templates (declared-status shapes) x {bundled transport, custom transport returning non-2xx unraised} the status is a single symbolic int over the whole 100..599 range; z3 decides every path of the emitted match statement and of HttpxTransport.request: non-2xx always raises the package's HTTPError carrying status and response, ClientError for 4xx, ServerError for 5xx. Importability of the emitted endpoints module for each declared set is checked first. Bounded by the template family.",
+   note="Trusts z3 (QF_LIA), the symx instrumentation (each path's witness re-run on the uninstrumented generated package), and that the 8 templates represent the declared-status shapes; the response body is a fixed conforming object.", ref="§2 C06")
+CHECKS["C17"] = dict(engine="symx", technique="symbolic execution (symx/z3) of the real HttpxTransport._prepare_headers/request and the bundled auth plugins against a reference fold; plugin sequences, header names, locations and argument presence are solver-decided choices, values symbolic strings",
+   text="Every sequence of <=2 (quick) / <=3 (thorough) bundled auth plugins of every kind, header names from a pool with case variants, API-key location header/query/cookie, presence/None-ness of caller params, cookies and json, defaults vs per-request headers vs transport bearer token: the kwargs reaching httpx.AsyncClient.request equal the statement's fold for all symbolic values.",
+   note="httpx below AsyncClient.request (its own case-insensitive header merge) is outside the claim; values are length-1 symbolic strings (pure pass-through data); the oracle is props/c17.py:expected().", ref="§2 C17")
 NA = {}
 def main():
     checks = []
